@@ -121,6 +121,7 @@ type Exec struct {
 	short  string
 	opts   *Options
 	notes  []string
+	pins   []listedLoc // read-only locations (package-level cells and their arrays): pinned to the entry heap at every havoc
 	witness []witnessTerm
 	measure0 string
 	exits  int
